@@ -15,6 +15,8 @@ Reading guide.
   which `L` answers with a document (`fetch_at_most_once`, second clause).
 -/
 import SpecModel.Cache.Lemmas
+import SpecModel.Cache.SideConditions
+import SpecModel.Generated.CacheFacts
 
 namespace SpecModel.Props.C18
 open SpecModel.Cache
@@ -190,5 +192,15 @@ example : validTrace [] [.get "a" false, .get "b" false, .fetch "a" true, .set "
 example : (runMany [p₂, p₂] [] L₁).map (·.log) = [["a", "b"], []] := by decide
 
 end Examples
+
+/-! ### Side conditions on the Go source (regenerated facts, `decide`)
+
+`schemaLoader.load` has the shape the model's `load` has (one key for lookup, fetch and store, in that
+order), and every other cache access of the package is one of the model's `peek` / `setPseudo` sites. -/
+
+open SpecModel.Cache.Side in
+theorem side_load_protocol : loadProtocol SpecModel.Gen.loadShape = true := by decide
+open SpecModel.Cache.Side in
+theorem side_direct_accesses_modelled : directAccessesModelled SpecModel.Gen.directCacheCalls = true := by decide
 
 end SpecModel.Props.C18
